@@ -76,6 +76,7 @@ def register(E):
                 p = e.pick_order(len(v.l))
                 return It('list', l=[Ref(v.l, i) for i in p], pos=0)
             return as_iter(e, as_slice(v))
+        if hasattr(e, 'it_of'): return e.it_of(x)
         raise EngineError(f'as_iter {x!r}')
     def as_slice(v):
         if isinstance(v, SliceRef): return v
